@@ -255,6 +255,7 @@ func NewCSVDatabaseResolvedCommand$1$1$1 returns (err)
 func NewCSVLogCommand returns (cmd)
   props C16 C06 C08
   ensures @name [C16] cmd != nil && cmd.Name == "log"
+  ensures @short-forms [C16] StrAlias(cmd.Flags[0], "b") && StrAlias(cmd.Flags[1], "e")
   ensures @flags [C16 C06] len(cmd.Flags) == 2 && CmdStrFlag(cmd.Flags[0], "begin") && CmdStrFlag(cmd.Flags[1], "end")
 
 func NewCSVDatabaseCommand returns (cmd)
@@ -267,4 +268,9 @@ func NewCSVDatabaseResolvedCommand returns (cmd)
   ensures @name [C16] cmd != nil && cmd.Name == "database-resolved"
   ensures @flags [C16] len(cmd.Flags) == 0
 
+
+func NewCSVCommand returns (cmd)
+  props C16 C08
+  ensures @name [C16] cmd != nil && cmd.Name == "csv"
+  ensures @subcommands [C16] len(cmd.Subcommands) == 3 && cmd.Subcommands[0].Name == "log" && cmd.Subcommands[1].Name == "database" && cmd.Subcommands[2].Name == "database-resolved"
 @*/
